@@ -101,6 +101,53 @@ def r1(ctx):
     ctx.count("signals", len(sigs) + 1)
 
 
+def _dirty_flag_protocol(repo, f, skip_path, first):
+    """The shortcut is sound when it follows the dirty-flag protocol against a writer that runs in a signal handler:
+    (1) the skipping path is taken only on a false `self.F`; (2) manage_workers lowers F *before* it first looks at the pool and
+    never after (a mark set by the handler during the pass survives it); (3) every arbiter method that adds to or removes from
+    WORKERS, and the setter of num_workers, raises F."""
+    g = f.cfg
+    flags = [n.ast.attr for n in skip_path if n.kind == "test" and isinstance(n.ast, ast.Attribute) and tail(n.ast.value) == "self"]
+    if len(flags) != 1:
+        return False
+    F = flags[0]
+
+    def store(fn, val):
+        return [n for n in fn.cfg.stmts(ast.Assign) if any(isinstance(t, ast.Attribute) and t.attr == F and tail(t.value) == "self" for t in n.ast.targets) and const(n.ast.value, NO) is val]
+    lows = store(f, False)
+    reads = [n for n in g.nodes if n.ast is not None and n.kind in ("stmt", "test", "for") and
+             any(isinstance(x, ast.Attribute) and x.attr in ("WORKERS", "num_workers") and tail(x.value) == "self" for root in n.cover for x in ast.walk(root))]
+    if not lows or not reads:
+        return False
+    # (2) lowered before the pool is read, on every path to a read; never after one
+    if any(g.path(g.entry, [r], without_nodes=lows, follow_exc=False) is not None for r in reads):
+        return False
+    if any(g.path(r, [l], follow_exc=False) is not None for r in reads for l in lows):
+        return False
+    # (3) every mutation of the pool raises the flag afterwards, in the same function
+    cls = repo.cls(ARB)
+    for fn in cls.methods.values():
+        muts = []
+        for n in fn.cfg.nodes:
+            if n.ast is None or n.kind != "stmt":
+                continue
+            for x in ast.walk(n.ast):
+                if isinstance(x, ast.Call) and isinstance(x.func, ast.Attribute) and x.func.attr in ("pop", "popitem", "clear", "update", "setdefault") and tail(x.func.value) == "WORKERS":
+                    muts.append(n)
+                elif isinstance(x, ast.Subscript) and isinstance(x.ctx, (ast.Store, ast.Del)) and tail(x.value) == "WORKERS":
+                    muts.append(n)
+        if fn.name == "_set_num_workers":
+            muts += [n for n in fn.cfg.stmts(ast.Assign) if any(tail(t) == "_num_workers" for t in n.ast.targets)]
+        if not muts:
+            continue
+        ups = store(fn, True)
+        for m in muts:
+            # (a pop that found nothing changes nothing: the flag has to follow the mutation, not every path from the call)
+            if not ups or not any(u in fn.cfg.reachable([m], follow_exc=False) for u in ups):
+                return False
+    return True
+
+
 def manage_always_compares(ctx, rid):
     """manage_workers() looks at the pool every time it is called: no path to its exit avoids the comparison of len(WORKERS)
     with num_workers (a 'nothing changed' shortcut driven by a flag races with the SIGCHLD handler, which changes the pool
@@ -114,6 +161,8 @@ def manage_always_compares(ctx, rid):
     first = deficit or sp
     ctx.need(first, rid + ": manage_workers has neither a deficit test nor a spawn call")
     pth = g.must_pass(g.entry, first, follow_exc=False)
+    if pth is not None and _dirty_flag_protocol(repo, f, pth, first):
+        pth = None
     ctx.check(rid, pth is None, key(f, "always-compares"), site(f), "manage_workers() can return before it has compared the pool with num_workers: a worker reaped by the SIGCHLD handler while a "
               "replacement was being spawned is never replaced (the pool stays short; with workers=1 the server stops serving)", "deficit test on every call", path=pth and g.fmt_path(pth))
 
